@@ -162,8 +162,8 @@ def check_roundtrip(case):
     back = u.parse_date(s)
     if not close_dt(back, a):
         raise Violation('parse_date(serialize_date(%s)) = %s' % (a, back), enc(back), enc(a))
-    env = Env(vars={'v_a': a})
-    for f in ('DATEVALUE(v_a)', 'N(v_a)'):
+    env = Env(vars={'v_a': a}, cells={'B2': a}, ranges={'C1:C2': [a, a]})
+    for f in ('DATEVALUE(v_a)', 'N(v_a)', 'N(B2)', 'DATEVALUE(B2)', 'INDEX(C1:C2,2)+0*N(B2)' if False else 'N(INDEX(C1:C2,2))'):
         r = env.parse(f)
         if r['error'] is not None or r['result'] != s:
             raise Violation('%s with v_a=%s -> %r but the serial is %r' % (f, a, r, s), enc(r['result']), s)
@@ -195,8 +195,9 @@ def check_monotone(case):
     if not (sa < sb):
         raise Violation('%s < %s but serials %r, %r are not strictly increasing' % (a, b, sa, sb), [sa, sb], None)
     env = Env(vars={'v_a': a, 'v_b': b})
+    env = Env(vars={'v_a': a, 'v_b': b}, cells={'B2': a, 'C3': b})
     want = {'v_a<v_b': True, 'v_a>v_b': False, 'v_a=v_b': False, 'v_a<=v_b': True, 'v_b>=v_a': True, 'v_a<>v_b': True,
-            'N(v_a)<N(v_b)': True, 'DATEVALUE(v_b)>DATEVALUE(v_a)': True}
+            'N(v_a)<N(v_b)': True, 'DATEVALUE(v_b)>DATEVALUE(v_a)': True, 'B2<C3': True, 'C3>v_a': True, 'B2=v_a': True, 'C3-B2>0': True}
     for f, w in want.items():
         r = env.parse(f)
         if r['error'] is not None or r['result'] is not w:
@@ -289,7 +290,7 @@ LAWS = [
     Law('datetimes', check_roundtrip, strategy=dt_strategy(), nontrivial=has_time, quick=3000, thorough=200000,
         classes=lambda s: (('janfeb1900' if getdt(s) < rd.MAR1_1900 else 'later'), ('near-midnight' if getdt(s).time() >= datetime.time(23, 59, 59) or getdt(s).time() <= datetime.time(0, 0, 1) else 'daytime')),
         required=('janfeb1900', 'later', 'near-midnight'),
-        rule='date-times at millisecond resolution over 1900-01-01..9999-12-31, biased to the first 70 days and to times near midnight; round trip within 1 ms, serial vs reference within 1e-9, DATEVALUE/N see the same serial; non-trivial = has a time of day'),
+        rule='date-times at millisecond resolution over 1900-01-01..9999-12-31, biased to the first 70 days and to times near midnight; round trip within 1 ms, serial vs reference within 1e-9, DATEVALUE/N see the same serial whether the date-time is a variable, a listener-served cell or an element of a listener-served range; non-trivial = has a time of day'),
     Law('monotone', check_monotone, strategy=st.one_of(st.tuples(dt_strategy(), dt_strategy()).map(list),
                                                         st.tuples(dt_strategy(), st.integers(1, 5000)).map(lambda t: [t[0], (getdt(t[0]) + datetime.timedelta(milliseconds=t[1])).isoformat()] if getdt(t[0]).year < 9999 else [t[0], t[0]])),
         quick=2000, thorough=100000, nontrivial=lambda c: has_time(c[0]) or has_time(c[1]),
